@@ -78,11 +78,26 @@ def rule_view_extent(fb, res, cls, key, ptrf, lenf, hsize, bound_minus=None, rea
             lv = strip_all_casts(facts.expand(lenf, lv)) if lv.get("k") == "ref" else lv
             w = 1
             num = lv
-            if lv.get("k") == "bin" and lv.get("op") == "/":
-                fw = _linear(lenf, lv["r"], syms)
-                if fw is None or set(fw) != {1} or fw[1] <= 0:
+
+            def path_const(e):
+                """constant value of e on this path (locals and ?: resolved by the path's decisions)"""
+                for _ in range(6):
+                    c0 = const_value(e)
+                    if c0 is not None:
+                        return c0
+                    fw0 = _linear(lenf, e, syms)
+                    if fw0 is not None and set(fw0) == {1}:
+                        return fw0[1]
+                    e2 = strip_all_casts(lp.value_of(e))
+                    if e2 is e or e2.get("id") == strip_all_casts(e).get("id"):
+                        return None
+                    e = e2
+                return None
+            if lv.get("k") == "bin" and lv.get("op") in ("/", ">>"):
+                d = path_const(lv["r"])
+                if d is None or d < 0 or (lv["op"] == "/" and d == 0) or d > 63:
                     raise Broken("%s: divisor of the element count is not a constant" % lenf.name)
-                w, num = fw[1], lv["l"]
+                w, num = (d if lv["op"] == "/" else (1 << d)), lv["l"]
             fn_ = _linear(lenf, num, syms)
             if fn_ is None or fn_.get("L") != 1 or any(c2 for s2, c2 in fn_.items() if s2 not in ("L", 1)):
                 raise Broken("%s: element count is not (payload size - constant) / width (`%s`)" % (lenf.name, canon(lv)[:80]))
